@@ -59,6 +59,11 @@ func (vc *ConnCursor) Rowid() (int64, error) {
 }
 
 func (vc *ConnCursor) Column(context *sqlite.VirtualTableContext, i int) error {
+	if context.NoChange() {
+		// UPDATE does not assign this attribute: leave it untouched instead of
+		// feeding its (second-granular) rendering back through Update
+		return nil
+	}
 	switch i {
 	case 0:
 		if vc.vm.sc.deadline.IsZero() {
@@ -115,9 +120,10 @@ func (c *ConnModule) Update(value sqlite.Value, values ...sqlite.Value) error {
 				return fmt.Errorf("write_time: must be like %s", s3db.SQLiteTimeFormat)
 			}
 		}
+		// an explicitly assigned write time outlives the transaction
+		c.sc.txFixedWriteTime = false
 	}
 
-	c.sc.txFixedWriteTime = false
 	c.sc.ResetContext()
 
 	return nil
